@@ -1,6 +1,7 @@
 package c15
 
 import (
+	"encoding/json"
 	"fmt"
 	"runtime/pprof"
 	"strings"
@@ -10,6 +11,7 @@ import (
 
 	res "github.com/jirenius/go-res"
 	nats "github.com/nats-io/nats.go"
+	"pgregory.net/rapid"
 
 	"verifharness/internal/evid"
 	"verifharness/internal/natsrv"
@@ -119,4 +121,118 @@ func TestRealNATSRelease(t *testing.T) {
 	ev.Case(true, evid.Hash("realnats-answered", atomic.LoadInt64(&answered) > 0), "realnats")
 	ev.Add("realnats-query-events", int64(n))
 	ev.Add("realnats-answered-requests", atomic.LoadInt64(&answered))
+}
+
+// TestRealNATSTwoServices: two or three services of one process on one NATS server (each on
+// its own connection) emit query events at overlapping times. Every query event subject
+// must be fresh - no two query events, of whichever service, share one - and a query request
+// on a subject is answered exactly once, by the service that published it.
+func TestRealNATSTwoServices(t *testing.T) {
+	rapid.Check(t, func(rt *rapid.T) {
+		nsvc := rapid.IntRange(2, 3).Draw(rt, "services")
+		nev := rapid.IntRange(1, 3).Draw(rt, "eventsEach")
+		srv, err := natsrv.Start()
+		if err != nil {
+			rt.Fatalf("VERIF-INCONCLUSIVE: %v", err)
+		}
+		defer srv.Stop()
+		client, err := srv.Connect()
+		if err != nil {
+			rt.Fatalf("VERIF-INCONCLUSIVE: %v", err)
+		}
+		defer client.Close()
+		evsub, err := client.SubscribeSync("event.*.q.*.query")
+		if err != nil {
+			rt.Fatalf("VERIF-INCONCLUSIVE: %v", err)
+		}
+		_ = client.Flush()
+		var svcs []*res.Service
+		var exits []chan error
+		stop := func() {
+			for i, s := range svcs {
+				_ = s.Shutdown()
+				select {
+				case <-exits[i]:
+				case <-time.After(10 * time.Second):
+				}
+			}
+		}
+		for i := 0; i < nsvc; i++ {
+			name := fmt.Sprintf("s%d", i)
+			s := res.NewService(name)
+			s.SetLogger(nil)
+			s.SetQueryEventDuration(2 * time.Second)
+			s.Handle("q.$id", res.Model, res.GetResource(func(r res.GetRequest) { r.NotFound() }))
+			nc, err := srv.Connect()
+			if err != nil {
+				stop()
+				rt.Fatalf("VERIF-INCONCLUSIVE: %v", err)
+			}
+			served := make(chan struct{})
+			s.SetOnServe(func(*res.Service) { close(served) })
+			exited := make(chan error, 1)
+			go func() { exited <- s.Serve(nc) }()
+			select {
+			case <-served:
+			case <-time.After(10 * time.Second):
+				stop()
+				rt.Fatalf("VERIF-INCONCLUSIVE: service did not start")
+			}
+			svcs = append(svcs, s)
+			exits = append(exits, exited)
+		}
+		for k := 0; k < nev; k++ {
+			for i, s := range svcs {
+				name := fmt.Sprintf("s%d", i)
+				if err := s.With(fmt.Sprintf("%s.q.%d", name, k), func(r res.Resource) {
+					r.QueryEvent(func(qr res.QueryRequest) {
+						if qr != nil {
+							qr.Model(map[string]string{"by": name})
+						}
+					})
+				}); err != nil {
+					stop()
+					rt.Fatalf("With: %v", err)
+				}
+			}
+		}
+		subjects := map[string]string{} // subject -> service
+		msg := ""
+		for i := 0; i < nsvc*nev && msg == ""; i++ {
+			m, err := evsub.NextMsg(5 * time.Second)
+			if err != nil {
+				msg = fmt.Sprintf("only %d of %d query events were published", i, nsvc*nev)
+				break
+			}
+			var p struct{ Subject string }
+			_ = json.Unmarshal(m.Data, &p)
+			owner := strings.Split(m.Subject, ".")[1]
+			if other, dup := subjects[p.Subject]; dup {
+				msg = fmt.Sprintf("the query event %s publishes the subject %q, which the query event of service %s is using at the same time: not a fresh subject", m.Subject, p.Subject, other)
+			}
+			subjects[p.Subject] = owner
+		}
+		for subj, owner := range subjects {
+			if msg != "" {
+				break
+			}
+			inbox := nats.NewInbox()
+			rs, _ := client.SubscribeSync(inbox)
+			_ = client.PublishRequest(subj, inbox, []byte(`{"query":"a=1"}`))
+			m, err := rs.NextMsg(5 * time.Second)
+			if err != nil {
+				msg = fmt.Sprintf("a query request on %s (service %s) got no response", subj, owner)
+			} else if !strings.Contains(string(m.Data), `"by":"`+owner+`"`) {
+				msg = fmt.Sprintf("a query request on the subject of service %s was answered with %s", owner, m.Data)
+			} else if m2, err := rs.NextMsg(30 * time.Millisecond); err == nil {
+				msg = fmt.Sprintf("a query request on %s (service %s) got a second response %s", subj, owner, m2.Data)
+			}
+			_ = rs.Unsubscribe()
+		}
+		stop()
+		ev.Case(true, evid.Hash("twosvc", nsvc, nev), "realnats-two-services")
+		if msg != "" {
+			rt.Fatalf("%d services, %d query events each: %s", nsvc, nev, msg)
+		}
+	})
 }
